@@ -16,7 +16,7 @@ import WuffsVerif.Model.ProbeVM
   tmpl <p|i|c> <n|s|o> <coroID> <derived> <susp01> <bodyEndsWithReturn01> <emptybody01> <args>   -> feature vector
       derived: `,`-separated r.<name> | w.<name> (or `-`); args: `/`-separated <name>:<argspec> (or `-`)
   tmplinit                                                -> initializer event sequence
-  cseq <gif|png> <cs> <dic|dfc|df|tmm|rf> <resumed01> <cls> <cs'>   -> rejected | allowed <cs'> | unexpected <cls> <cs'>
+  cseq <gif|png|still|nie> <cs> <dic|dfc|df|tmm|rf> <resumed01> <cls> <cs'>   -> rejected | allowed <cs'> | unexpected <cls> <cs'>
   vm <idx> <selfnull01> <src> <dst> <proghex>             -> <status> <magic> <active> src=… dst=… pc=… p=… scratch=…
       the probe's bytecode interpreter `thing.vm?` (Model/ProbeVM.lean); src/dst: <mode>,<memhex>,<ri>,<wi>,<closed01>
       with mode 0 = NULL pointer, 1 = buffer over memhex, 2 = buffer without data.ptr
@@ -162,7 +162,8 @@ def ioOp (role mem len ri wi closed hasptr instrs : String) : Option String := d
 /-! CallSeq op -/
 open WuffsVerif.CallSeq in
 def cseqOp (codec cs meth resumed cls cs' : String) : Option String := do
-  let c ← if codec == "gif" then some Codec.gif else if codec == "png" then some Codec.png else none
+  let c ← if codec == "gif" then some Codec.gif else if codec == "png" then some Codec.png
+    else if codec == "still" then some Codec.still else if codec == "nie" then some Codec.nie else none
   let cs ← cs.toNat?
   let cs' ← cs'.toNat?
   let m ← match meth with
@@ -172,10 +173,8 @@ def cseqOp (codec cs meth resumed cls cs' : String) : Option String := do
   let k ← match cls with
     | "bcs" => some Cls.bcs | "ok" => some Cls.ok | "eod" => some Cls.eod | "meta" => some Cls.mdata
     | "susp" => some Cls.susp | "err" => some Cls.err | _ => none
-  if !r && !(inOrder cs m) then
-    -- out of order: the model's only outcome is the rejection
-    pure (if next c cs m == [(Cls.bcs, cs)] then "rejected" else "model-inconsistent")
-  else if allowed c cs m r (k, cs') then pure s!"allowed {cs'}"
+  if allowed c cs m r (k, cs') then
+    pure (if k == Cls.bcs then "rejected" else s!"allowed {cs'}")
   else pure s!"unexpected {cls} {cs'}"
 
 def parseDerived (s : String) : Option DerivedVar :=
